@@ -115,6 +115,7 @@ def run(F, R):
                                     'a byte indexed by the read cursor is taken from something other than the receive buffer: %s' % fmt(loc)[:120])
     for b in senders:
         s3_send(F, R, M, b, roles, rxq)
+        s3b_send_always_submits(F, R, M, b, roles)
     s5_trait_writers(F, R, set(x['id'] for x in senders))
     s7_reader_arithmetic(F, R, usz, list(bufs)[0] if len(bufs) == 1 else None, set(x['id'] for x in posters + finishers + direct_finishers))
     from .C19 import q6_no_access_after_post
@@ -348,6 +349,30 @@ def s3_send(F, R, M, b, roles, rxq):
         R.check(ok and src_ok and q != rxq, 'S3', '%s:send-shape' % b['id'], site(sg, n), 'one device-readable element = the caller\'s bytes, nothing writable, on the transmit queue',
                 'send must place exactly the caller\'s bytes on the transmit queue: readable=%s writable=%s queue=%s caller-bytes=%s' % (
                     len(ins) if ins is not None else None, len(outs) if outs is not None else None, q, src_ok))
+
+
+def s3b_send_always_submits(F, R, M, b, roles):
+    """Every send goes through the transmit queue: a sender has no path that returns anything but an explicit error without having
+    submitted (e.g. a short cut through the emergency-write register when that feature happens to be negotiated)."""
+    sg = supergraph(F, b['id'], opaque=lambda t, bb: bb['id'] in roles or (bb.get('impl_adt') == DRV and bb.get('pub') and bb['id'] != b['id']), tag='c15s')
+    where = fn_site(F, b['id'])
+    try:
+        paths = [p for p in PathEnum(sg).run() if not p.panicked]
+    except PathLimit as e:
+        R.abstain('S3', '%s:always-submits' % b['id'], str(e), where)
+        return
+    bad = None
+    for p in paths:
+        sub = any(e[0] == 'call' and roles.get(e[2]) in ('add_notify_wait_pop', 'add') for e in p.effects)
+        if not sub and err_variant(p.ret) in (None, 'Ok'):
+            empty_ok = False
+            # an empty send that returns Ok(()) without touching the device is "exactly the caller's bytes" too
+            if err_variant(p.ret) == 'Ok' and any(c[0][0] == 'call' and c[0][2].endswith('::is_empty') or (c[0][0] == 'bin' and any(x[0] == 'call' and x[2].endswith('::len') for x in subterms(c[0]))) for c in p.conds):
+                empty_ok = True
+            if not empty_ok:
+                bad = 'a path returns %s without placing the bytes on the transmit queue' % (fmt(p.ret)[:60] if p.ret is not None else 'normally')
+    R.check(bad is None and bool(paths), 'S3', '%s:always-submits' % b['id'], where, 'every non-error return follows a submission to the transmit queue',
+            '%s: %s' % (b['name'], bad))
 
 
 def s7_reader_arithmetic(F, R, usz, bf, helper_ids):
